@@ -22,7 +22,7 @@ CHECKS = {
  "C07": ("model_checking", "A", "6-C07", "explicit-state BFS over the real Mapper::step; nr monitor in the product",
          "After every (certain or observed) firing of a Disabled/Special mapping no non-modifier key is held, each output was pressed, and nothing becomes held again before the next press."),
  "C08": ("model_checking", "A", "6-C08, 7.2", "explicit-state BFS over the real Mapper::step; per-modifier absorption monitor in the product",
-         "While a modifier is certainly absorbed: (a) no observed firing of a mapping requiring it from another trigger, (b) it is not down at non-modifier presses, (c) immediate re-press of the trigger refires, (d) an unabsorbed modifier counts. The stacked-absorption corner is an open known finding."),
+         "While a modifier is certainly absorbed: (a) no observed firing of a mapping requiring it from another trigger, (b) it is not down at non-modifier presses, (c) immediate re-press of the trigger refires, (d) an unabsorbed modifier counts. (The stacked-absorption corner found by this check was first recorded as a known finding and later repaired, commit 5511313; its signature no longer suppresses anything.)"),
  "C09": ("model_checking", "A", "6-C09", "explicit-state BFS over the real Mapper::step; reference repeat instruction as transition predicate",
          "Every step's repeat instruction (Repeating exactly the fired Special mapping's parameters / Disabled / NoChange with no events for ignored events) in every reachable state."),
  "C10": ("model_checking", "B", "4, 6-C10", "stateless DFS (prefix replay) over all delivery schedules of the real per-device loop under a scripted driver",
